@@ -122,6 +122,7 @@ type Sched struct {
 	objIdx  map[unsafe.Pointer]int
 	objVals []int64
 	Holder  int // maintained by the monitor (stream holder), part of the abstract state
+	mainParked bool
 }
 
 var active *Sched
@@ -152,7 +153,9 @@ func (s *Sched) Run(body func()) (ab *Abort) {
 	body()
 	s.Threads[0].done = true
 	for s.anyLive() {
+		s.mainParked = true
 		s.switchFrom(s.Threads[0], true)
+		s.mainParked = false
 	}
 	return s.Aborted
 }
@@ -277,6 +280,12 @@ func (s *Sched) switchFrom(t *Thread, exiting bool) {
 		} else if s.anyLive() {
 			s.abort("deadlock: threads are blocked and none can run")
 		} else {
+			// everything has finished; if the main thread is parked in Run's final loop, release it
+			if t.ID != 0 && s.mainParked {
+				s.mainParked = false
+				s.cur = s.Threads[0]
+				s.Threads[0].wake <- struct{}{}
+			}
 			return
 		}
 	}
